@@ -788,6 +788,28 @@ func ashiftRule(w *World, r *Report) {
 			return "?"
 		}
 		cnt := stripConv(b.Y)
+		// a shift count saturated at a constant below 63 (count = min(-shift, K)): an int64
+		// shifted right by K < 63 keeps its upper bits, the larger counts are not equivalent
+		negShift := func(v ssa.Value) bool {
+			u, ok := stripConv(v).(*ssa.UnOp)
+			return ok && u.Op == token.SUB && stripConv(u.X) == ssa.Value(sh)
+		}
+		var capped []ssa.Value
+		if ph, ok := cnt.(*ssa.Phi); ok {
+			capped = ph.Edges
+		} else if mc, ok := cnt.(*ssa.Call); ok && builtinName(mc) == "min" {
+			capped = mc.Call.Args
+		}
+		if len(capped) == 2 && b.Op == token.SHR {
+			for i := 0; i < 2; i++ {
+				if k, isK := constInt(capped[i]); isK && negShift(capped[1-i]) {
+					if k < 63 {
+						return fmt.Sprintf("shr saturated at %d", k)
+					}
+					return "shr"
+				}
+			}
+		}
 		neg := false
 		if u, ok := cnt.(*ssa.UnOp); ok && u.Op == token.SUB {
 			cnt, neg = stripConv(u.X), true
@@ -843,7 +865,7 @@ func ashiftRule(w *World, r *Report) {
 				if sp == "?" {
 					unread = append(unread, fmt.Sprintf("for %s the result is %s", reg.name, describeValue(v)))
 				} else {
-					problems = append(problems, fmt.Sprintf("for %s the result is %s", reg.name, describeValue(v)))
+					problems = append(problems, fmt.Sprintf("for %s the result is %s [%s]", reg.name, describeValue(v), sp))
 				}
 			}
 		}
